@@ -1,6 +1,6 @@
 CONSTANTS
-  MaxH = 6
-  MaxMsgs = 14
+  MaxH = 8
+  MaxMsgs = 30
   MaxFiles = 12
   MaxLen = 30
   MaxCrash = 2
